@@ -577,6 +577,8 @@ struct Orig {
     vals: Vec<Option<V>>,
     dt: Option<DataType>,
     from_reference: bool,
+    /// reference values under bit-wise float membership (diagnostic), when `from_reference`
+    alt_bitwise: Option<Vec<Option<V>>>,
 }
 
 fn flip(v: &V) -> V {
@@ -612,7 +614,8 @@ struct Cmp<'a> {
 /// at most 2 kept witnesses per signature (the report keeps 25 in total); every occurrence is counted
 fn violate(rep: &Report, sig: &str, w: vcommon::Json) {
     let key = format!("violations_by_signature/{sig}");
-    if rep.get_count(&key) < 2 {
+    let classified = !(sig.contains("-changed/") || sig.contains("simplified-raises-error/") || sig.contains("not-plannable/") || sig.contains("/panic"));
+    if rep.get_count(&key) < if classified { 1 } else { 3 } {
         rep.violation(sig, w);
     } else {
         rep.count("violations_not_kept(same signature)", 1);
@@ -648,8 +651,23 @@ fn classify(cx: &Ctx, c: &Cmp, kind: &str, row: Option<&[V]>, err: Option<&str>)
             }
         }
     }
-    if c.mode == "rewrite_with_guarantees" && expr_has(c.original, |n| matches!(n, Expr::Between(b) if matches!(b.low.as_ref(), Expr::Literal(s, _) if s.is_null()) || matches!(b.high.as_ref(), Expr::Literal(s, _) if s.is_null()))) {
+    // rewrite_between: a NULL (or NaN, or guaranteed-NULL) bound is answered with a NULL literal of the operand's
+    // type, or decided on a canonicalised interval; ExprSimplifier never reaches it (BETWEEN is expanded first)
+    if c.mode == "rewrite_with_guarantees"
+        && expr_has(c.original, |n| matches!(n, Expr::Between(_)))
+        && (kind == "data-type" || c.simplified_txt.ends_with("(NULL)") || expr_has(c.original, |n| matches!(n, Expr::Between(b) if matches!(b.low.as_ref(), Expr::Literal(s, _) if s.is_null()) || matches!(b.high.as_ref(), Expr::Literal(s, _) if s.is_null()))))
+    {
         return Some("guarantee-between-null-bound");
+    }
+    // rewrite_binary_expr folds literal <op> literal through interval arithmetic, which orders -0.0 < +0.0
+    if (c.mode == "rewrite_with_guarantees" || c.mode == "with_guarantees") && kind != "data-type" && expr_has(c.original, is_float_zero_lit) && c.simplified_txt.contains("Boolean(") {
+        let zero_in_row = row.is_some_and(|row| c.refs.iter().any(|&ci| matches!(&row[ci], V::F(f) if *f == 0.0)));
+        if !zero_in_row && expr_has(c.original, |n| matches!(n, Expr::BinaryExpr(b) if is_float_zero_lit(&b.left) && is_float_zero_lit(&b.right))) {
+            return Some("guarantee-float-zero-literals-ordered-by-interval");
+        }
+    }
+    if kind == "not-plannable" && c.simplified_txt.contains("concat()") {
+        return Some("concat-of-null-literals-folded-to-zero-arguments");
     }
     if kind == "error" && err.is_some_and(|m| m.contains("Overflow happened on: - ")) {
         return Some("negative-of-min-scalar-raises-array-wraps");
@@ -657,7 +675,10 @@ fn classify(cx: &Ctx, c: &Cmp, kind: &str, row: Option<&[V]>, err: Option<&str>)
     if kind == "data-type" && expr_has(c.original, |n| matches!(n, Expr::BinaryExpr(b) if b.op == Operator::Multiply && ty(n).is_some_and(|t| matches!(t, DataType::Decimal128(_, _))))) && c.simplified_txt.starts_with("Decimal128(0") {
         return Some("decimal-multiply-by-zero-keeps-literal-type");
     }
-    if expr_has(c.original, |n| matches!(n, Expr::BinaryExpr(b) if b.op == Operator::Modulo && ty(&b.left).is_some_and(|t| matches!(t, DataType::Decimal128(_, s) if s > 0)))) && c.simplified_txt.contains("Decimal128(0") {
+    if kind != "data-type"
+        && expr_has(c.original, |n| matches!(n, Expr::BinaryExpr(b) if b.op == Operator::Modulo && ty(&b.left).is_some_and(|t| matches!(t, DataType::Decimal128(_, s) if s > 0)) && matches!(b.right.as_ref(), Expr::Literal(ScalarValue::Decimal128(Some(v), _, sc), _) if *sc >= 0 && *v == 10i128.pow(*sc as u32))))
+        && !c.simplified_txt.contains(" % ")
+    {
         return Some("decimal-modulo-one-folded-to-zero");
     }
     if expr_has(c.original, |n| {
@@ -666,7 +687,7 @@ fn classify(cx: &Ctx, c: &Cmp, kind: &str, row: Option<&[V]>, err: Option<&str>)
         return Some("bitwise-rule-treats-arithmetic-negation-as-not");
     }
     // TRY_CAST(x AS narrower) <op> literal is unwrapped to x <op> literal: rows on which the TRY_CAST yields NULL change
-    if kind != "data-type" && expr_has(c.original, |n| matches!(n, Expr::TryCast(_))) && !c.simplified_txt.contains("TRY_CAST") {
+    if kind != "data-type" && format!("{}", c.original).matches("TRY_CAST(").count() > c.simplified_txt.matches("TRY_CAST(").count() {
         return Some("try-cast-narrowing-unwrapped");
     }
     if let Some(row) = row {
@@ -684,7 +705,7 @@ fn classify(cx: &Ctx, c: &Cmp, kind: &str, row: Option<&[V]>, err: Option<&str>)
             _ => false,
         },
         _ => false,
-    }) && kind == "value"
+    }) && kind != "data-type"
     {
         return Some("lossy-decimal-cast-unwrapped");
     }
@@ -742,7 +763,16 @@ fn compare(cx: &Ctx, c: &Cmp, orig: &Orig, simp: &Evald) -> usize {
             Some(sv) if !sv.same(ov) => (if sv.is_null() != ov.is_null() { "null-ness" } else { "value" }, json!({"simplified_value": sv.to_json()})),
             _ => continue,
         };
-        let class = classify(cx, c, kind, Some(&c.rows[r]), simp.batch_err.as_deref());
+        let mut class = classify(cx, c, kind, Some(&c.rows[r]), simp.batch_err.as_deref());
+        if class.is_none() {
+            // the original's value came from the independent evaluator: does the engine's bit-wise membership
+            // semantics (IN / simple CASE / NULLIF) explain the difference?
+            if let (Some(alt), Some(sv)) = (&orig.alt_bitwise, &sv) {
+                if alt[r].as_ref().is_some_and(|a| a.same(sv)) {
+                    class = Some("float-zero-sign-membership-vs-equality");
+                }
+            }
+        }
         let sig = match (class, kind) {
             (Some(k), _) => format!("{}/{k}", sig_group(c.mode, k)),
             (None, "error") => format!("{}/simplified-raises-error/{}", c.mode, c.tag),
@@ -890,7 +920,7 @@ fn check_expr(cx: &Ctx, tag: &str, raw: Expr, rng: &mut Rng, case_no: u64, syste
     if ev.panicked {
         rep.count("original_panics", 1);
     }
-    let mut orig = Orig { vals: ev.vals, dt: ev.dt, from_reference: false };
+    let mut orig = Orig { vals: ev.vals, dt: ev.dt, from_reference: false, alt_bitwise: None };
     // independent reference evaluator: cross-check of the original (evidence; C33 owns the verdict)
     // and stand-in oracle where the engine cannot evaluate the unsimplified form at all (coalesce)
     let reference = compile(&coerced, env).ok();
@@ -914,7 +944,10 @@ fn check_expr(cx: &Ctx, tag: &str, raw: Expr, rng: &mut Rng, case_no: u64, syste
         }
         let unevaluable = orig.vals.iter().all(|v| v.is_none()) && ev.batch_err.as_deref().is_some_and(|m| m.contains("should have been simplified"));
         if unevaluable {
-            orig = Orig { vals: rv.into_iter().map(|r| r.ok()).collect(), dt: None, from_reference: true };
+            set_membership_bitwise(true);
+            let alt: Vec<Option<V>> = rows.iter().map(|row| r.eval(row).ok()).collect();
+            set_membership_bitwise(false);
+            orig = Orig { vals: rv.into_iter().map(|r| r.ok()).collect(), dt: None, from_reference: true, alt_bitwise: Some(alt) };
             rep.count("original_value_from_reference_evaluator", 1);
         }
     }
@@ -1030,8 +1063,12 @@ fn eval_and_compare(cx: &Ctx, c: &Cmp, s: &Expr, orig: &Orig, batch: &arrow::rec
     let sp = match vcommon::par::guard(|| cx.env.physical(s)) {
         Ok(Ok(p)) => p,
         Ok(Err(e)) => {
-            violate(cx.rep, 
-                &format!("{mode}/simplified-not-plannable/{tag}"),
+            let sig = match classify(cx, &c, "not-plannable", None, None) {
+                Some(k) => format!("{}/{k}", sig_group(mode, k)),
+                None => format!("{mode}/simplified-not-plannable/{tag}"),
+            };
+            violate(cx.rep,
+                &sig,
                 json!({"mode": mode, "family": tag, "original": format!("{}", c.original), "simplified": stxt, "error": e.to_string(), "schema": cx.env.schema_json(), "context": c.extra}),
             );
             return 0;
